@@ -8,7 +8,7 @@ CLAIMS = {
              text="TLC enumerates every file of up to 5 rows (quick: 4) over the row classes {ok, too few fields, too many fields, not CSV (bare quote), unparsable value at the first / an inner / the last column, unparsable timestamp} x chunk sizes {1,2,3,100} x header option and checks on the model of the loop as coded (pure variant) that a finished load has either reported an error or written every row. Each case is emitted with the property's answer and the answer of the unchanged tree (named deviation CsvErrorIsEOF), written by Python as a CSV file plus loader control file (6 time formats incl. epoch timestamps and fractional seconds, 6 time zones, 6 bucket schemas over all ten numeric column types, fixed and variable-length buckets, header renaming / case / blanks, CRLF, quoting, missing final newline) and loaded by the real code into a real instance; the reported error, every dataset handed to the write client and the queried bucket content are compared with the file.",
              note="Trusted: TLC, the Python concretisation (zoneinfo for local time -> epoch, per-type value pools), encoding/csv as modelled by its FieldsPerRecord rule. session.load itself is unexported and hard-wires chunkSize=1000000: the chunk sizes 1,2,3,100 go through a Go op that replicates ONLY its outer loop around the same exported functions; a sample of the cases with the largest chunk size also goes through the real session.Client.Read command loop (real load, real local API client) in a child process. A process crash (Go panic with stack trace) is counted as a reported failure, not as a silent drop. CSV layout is Epoch first (any other position makes every load fail with an error); string (U16) columns are not covered."),
 }
-import datetime, json, os, random, re, shutil, struct, subprocess, sys, time
+import concurrent.futures, datetime, json, os, random, re, shutil, struct, subprocess, sys, time
 import zoneinfo
 import vlib
 from vlib import Result, Undecided
@@ -20,13 +20,16 @@ NC = 3
 # ---------------------------------------------------------------------------------------------------------------
 # concretisation tables
 # ---------------------------------------------------------------------------------------------------------------
+# timeframes are chosen for small year files (a query scans the whole year file); a fixed bucket stores a row at the
+# start of its interval, so the stored epoch is compared after flooring to the timeframe (the exact parsed epoch is
+# compared on the dataset handed to the write client)
 SCHEMAS = [
-    dict(kind="fixed", tf="1Min", cols=[("Open", "f4"), ("High", "f4"), ("Low", "f4"), ("Close", "f4"), ("Volume", "i8")]),
-    dict(kind="fixed", tf="1Min", cols=[("Px", "f8"), ("Qty", "i4")]),
-    dict(kind="fixed", tf="1Sec", cols=[("a", "i1"), ("b", "u2"), ("c", "u4"), ("d", "i2")]),
-    dict(kind="variable", tf="1Min", cols=[("Bid", "f4"), ("Ask", "f8"), ("Sz", "u8")]),
-    dict(kind="fixed", tf="1Min", cols=[("x", "u1"), ("y", "i8"), ("z", "f4")]),
-    dict(kind="variable", tf="1Sec", cols=[("p", "i4"), ("q", "u4"), ("r", "f8")]),
+    dict(kind="fixed", tf="1Min", tfsec=60, cols=[("Open", "f4"), ("High", "f4"), ("Low", "f4"), ("Close", "f4"), ("Volume", "i8")]),
+    dict(kind="fixed", tf="1H", tfsec=3600, cols=[("Px", "f8"), ("Qty", "i4")]),
+    dict(kind="fixed", tf="1D", tfsec=86400, cols=[("a", "i1"), ("b", "u2"), ("c", "u4"), ("d", "i2")]),
+    dict(kind="variable", tf="1H", tfsec=3600, cols=[("Bid", "f4"), ("Ask", "f8"), ("Sz", "u8")]),
+    dict(kind="fixed", tf="4H", tfsec=14400, cols=[("x", "u1"), ("y", "i8"), ("z", "f4")]),
+    dict(kind="variable", tf="1D", tfsec=86400, cols=[("p", "i4"), ("q", "u4"), ("r", "f8")]),
 ]
 ZONES = ["UTC", "America/New_York", "Asia/Tokyo", "Europe/Berlin", "Asia/Kolkata", "America/Sao_Paulo"]
 MONTHS = ["Jan", "Feb", "Mar", "Apr", "May", "Jun", "Jul", "Aug", "Sep", "Oct", "Nov", "Dec"]
@@ -99,11 +102,12 @@ def concretise(rng, case, n):
     for k in range(2, NC):
         colmap[k] = rng.choice(inner)
     nrows = len(case["file"])
-    days = rng.sample(range(1, 364 * 2), nrows)           # distinct days of 2021-2022, never Jan 1 2021
+    year = rng.choice([2021, 2022, 2024])
+    days = rng.sample(range(1, 364), nrows)               # distinct days of one year, never Jan 1
     rows, lines = [], []
     for j, cls in enumerate(case["file"]):
-        d = datetime.datetime(2021, 1, 1) + datetime.timedelta(days=days[j])
-        sec = 0 if schema["tf"] == "1Min" and not var else rng.randrange(60)
+        d = datetime.datetime(year, 1, 1) + datetime.timedelta(days=days[j])
+        sec = rng.randrange(60)
         local = datetime.datetime(d.year, d.month, d.day, rng.randrange(9, 17), rng.randrange(60), sec, tzinfo=tz)
         ns = rng.choice(FRACS) if var else 0
         epoch = int(local.timestamp())
@@ -170,10 +174,14 @@ def val_eq(typ, real, want):
     return real == want
 
 
-def rows_of_cols(cols, conc, tolerant_ns):
-    """driver columns -> list of row ids ('?' + description for a row that is not a row of the file)."""
+def rows_of_cols(cols, conc, stored):
+    """driver columns -> list of row ids ('?' + description for a row that is not a row of the file).
+    stored=False: dataset handed to the write client (exact epoch / nanoseconds);  stored=True: query result (fixed
+    bucket: start of the interval; variable bucket: within one tick of the interval's 32-bit tick resolution)."""
     schema = conc["schema"]
     var = schema["kind"] == "variable"
+    tfsec = schema["tfsec"]
+    tick = -(-tfsec * 10 ** 9 // 2 ** 32) + 2
     want = ["Epoch"] + [c for c, _ in schema["cols"]] + (["Nanoseconds"] if var else [])
     names = [c["name"] for c in cols]
     if not cols:
@@ -189,8 +197,13 @@ def rows_of_cols(cols, conc, tolerant_ns):
         for r in conc["rows"]:
             if r["vals"] is None:
                 continue
-            dt = (r["epoch"] - ep) * 10 ** 9 + (r["ns"] - ns)
-            if (0 <= dt <= 100) if (tolerant_ns and var) else dt == 0:
+            if not stored:
+                ok = r["epoch"] == ep and r["ns"] == ns
+            elif var:
+                ok = 0 <= (r["epoch"] - ep) * 10 ** 9 + (r["ns"] - ns) <= tick
+            else:
+                ok = ep == r["epoch"] - r["epoch"] % tfsec
+            if ok:
                 hit = r
                 break
         if hit is None:
@@ -357,6 +370,8 @@ def run(prop, tier):
     binary = vlib.build_harness(cmd=CMD)
     known = {k["deviation"]: k for k in vlib.known_findings(prop)}
     classes = ["ok", "few", "many", "quote", "badts", "bad1", "bad2", "bad3"]
+    if quick:
+        classes.remove("bad2")          # the inner column position is left to the thorough tier
 
     # ---------------- E1 + case enumeration ----------------
     if quick:
@@ -372,14 +387,19 @@ def run(prop, tier):
     res.cov["cases_enumerated"] = len(cases)
     res.cov["cases_where_known_deviation_breaks_property"] = sum(1 for c in cases if not c["known"]["sat"])
 
+    vlib.log("[csvload] TLC done: %d cases, %.0fs since start" % (len(cases), time.time() - res.t0))
     d = vlib.scratch()
     fdir = os.path.join(d, "csv")
     os.makedirs(fdir, exist_ok=True)
     ycache = {}
-    concs = {}
     off = rng.randrange(1000)
-    for n, c in enumerate(cases):
-        concs[n] = concretise(rng, c, n + off)
+
+    class Concs(dict):
+        """case number -> concretisation, computed on demand from a per-case generator (seed, n); cleared per slab"""
+        def __missing__(self, n):
+            self[n] = concretise(random.Random("%d:%d" % (vlib.seed(), n)), cases[n], n + off)
+            return self[n]
+    concs = Concs()
 
     tally = dict(ok=0, known=0, violation=0, exact=0, inexact=0, reported_error=0, reported_panic=0, loaded_all=0)
     formats, zones, types, hvariants = set(), set(), set(), set()
@@ -419,23 +439,42 @@ def run(prop, tier):
                         "control": conc["yaml"], "observed": {"report": report, "chunks": chunks, "stored": stored}}, limit=4)
 
     # ---------------- E2a: every case through the loop of session.load (chunk size as enumerated) ----------------
-    root = os.path.join(d, "root_csvload")
-    todo = list(range(len(cases)))
+    # batches run in parallel driver processes, each on its own fresh instance
+    nproc = max(2, min(8, (os.cpu_count() or 4) // 2))
+    slabs = [list(range(k, min(k + 24000, len(cases)))) for k in range(0, len(cases), 24000)]
     rounds = 0
-    while todo:
+    todo = []
+    while todo or slabs:
+        if not todo:
+            concs.clear()
+            todo = slabs.pop(0)
+            rounds = 0
         rounds += 1
         if rounds > 20:
             raise Undecided("driver keeps dying")
-        script = [{"id": "start", "ops": [{"op": "start", "root": root}]}]
-        for n in todo:
-            conc = concs[n]
-            key = key_of(n, conc)
-            p, y = write_files(fdir, n, conc, ycache)
-            script.append({"id": n, "ops": [create_op(key, conc),
-                                            {"op": "csvload", "x": {"key": key, "data": p, "control": y, "chunk": cases[n]["chunk"]}},
-                                            {"op": "query", "dest": key},
-                                            {"op": "destroy", "key": key}]})
-        obs = vlib.run_cases(binary, script, timeout=3000 if not quick else 900, tag="csvload")
+        bsize = max(50, min(1500, -(-len(todo) // nproc)))
+        batches = [todo[k:k + bsize] for k in range(0, len(todo), bsize)]
+        jobs = []
+        for bi, batch in enumerate(batches):
+            root = os.path.join(d, "root_csvload_%d_%d_%d" % (len(slabs), rounds, bi))
+            script = [{"id": "start", "ops": [{"op": "start", "root": root}]}]
+            for n in batch:
+                conc = concs[n]
+                key = key_of(n, conc)
+                p, y = write_files(fdir, n, conc, ycache)
+                script.append({"id": n, "ops": [create_op(key, conc),
+                                                {"op": "csvload", "x": {"key": key, "data": p, "control": y, "chunk": cases[n]["chunk"]}},
+                                                {"op": "query", "dest": key}]})
+            jobs.append((root, script))
+
+        def job(k):
+            o = vlib.run_cases(binary, jobs[k][1], timeout=3000 if not quick else 900, tag="csvload%d" % k)
+            shutil.rmtree(jobs[k][0], ignore_errors=True)
+            return o
+        obs = {}
+        with concurrent.futures.ThreadPoolExecutor(nproc) as ex:
+            for o in ex.map(job, range(len(jobs))):
+                obs.update(o)
         again = []
         for n in todo:
             o = obs.get(json.dumps(n))
@@ -458,10 +497,11 @@ def run(prop, tier):
         if again and len(again) == len(todo):
             raise Undecided("driver made no progress")
         todo = again
-        shutil.rmtree(root, ignore_errors=True)
 
+    vlib.log("[csvload] loop replay done, %.0fs since start" % (time.time() - res.t0))
     # ---------------- E2b: the real command loop, real session.load (chunkSize 1000000 = largest chunk class) -----
-    big = [n for n, c in enumerate(cases) if c["chunk"] == MAXCHUNK and len(concs[n]["csv"]) > 0]
+    concs.clear()
+    big = [n for n, c in enumerate(cases) if c["chunk"] == MAXCHUNK and (c["file"] or c["header"])]     # not the 0-byte file
     small = [n for n in big if len(cases[n]["file"]) <= 2]
     rest = [n for n in big if len(cases[n]["file"]) > 2]
     rng.shuffle(small)
@@ -504,6 +544,7 @@ def run(prop, tier):
         report, detail = cli[n]
         stored = stored_rows(concs[n], key, o[0])
         # the command loop does not expose the datasets; the stored rows stand for the single chunk it writes
+        stored = sorted(stored, key=lambda x: (isinstance(x, str), x))
         chunks = [list(stored)] if stored else []
         account(n, "connect", report, chunks, stored, detail, {})
         ncli += 1
@@ -545,7 +586,7 @@ def replay(rp):
         vlib.run_cases(binary, [{"id": "r", "ops": [{"op": "start", "root": root}, create_op(key, conc)]}])
         report, detail = run_cli(binary, root, [(n, key, p, y)], 120)[n]
         obs = vlib.run_cases(binary, [{"id": "r", "ops": [{"op": "start", "root": root}, {"op": "query", "dest": key}]}])['"r"']
-        stored = stored_rows(conc, key, obs[1])
+        stored = sorted(stored_rows(conc, key, obs[1]), key=lambda x: (isinstance(x, str), x))
         chunks = [stored] if stored else []
     print("observed: report=%s datasets=%s bucket=%s %s" % (report, chunks, stored, str(detail)[:300]))
     verdict, text, _ = judge(c, conc, report, chunks, stored, detail)
